@@ -222,6 +222,11 @@ func (k *Key) PGPEntity() *openpgp.Entity {
 		PrivateKey: k.private,
 		Identities: map[string]*openpgp.Identity{},
 	}
+	if k.private == nil {
+		// The self-signed user id below can only be made with the private key. Without it
+		// the entity has no identity: it can't be used to sign nor to verify.
+		return e
+	}
 	// somehow initialize the proper fields with identity, self-signature ...
 	err := e.AddUserId("name", "", "", nil)
 	if err != nil {
